@@ -3111,6 +3111,13 @@ Grammar* IGXMLScanner::loadDTDGrammar(const InputSource& src,
     // And push it onto the stack, with its pseudo name
     fReaderMgr.pushReaderAdoptEntity(newReader, declDTD);
 
+    // and reset security-related things if necessary:
+    if(fSecurityManager != 0)
+    {
+        fEntityExpansionLimit = fSecurityManager->getEntityExpansionLimit();
+        fEntityExpansionCount = 0;
+    }
+
     //  If we have a doc type handler and advanced callbacks are enabled,
     //  call the doctype event.
     if (fDocTypeHandler) {
